@@ -418,47 +418,118 @@ static void boundary(void)
 	}
 }
 
-/* ISIZE wrap-around: 2^32 + 5 input bytes through the streaming API (thorough) */
-static void isize_wrap(void)
+/* Streams longer than 4 GiB through the streaming APIs: total_in / total_out are 32-bit and wrap, ISIZE is the length mod 2^32,
+ * hash indices are 16-bit. 2^32 + 5 + 77777 input bytes are fed in 1 MiB pieces; the gzip stream is (a) checked for its trailer
+ * against the reference CRC-32 / length, (b) decoded again by isal_inflate (trailer verification on) and by zlib, both streaming,
+ * and the decoded bytes are compared piece by piece with the input. Data: a constant byte, or a 3 MiB mixed block repeated. */
+static void big_stream(int level, int kind)
 {
-	static uint8_t chunk[1 << 20], obuf[1 << 16], lb[ISAL_DEF_LVL1_DEFAULT];
+	enum { PIECE = 1 << 20, PERIOD = 3 << 20 };
+	static uint8_t *src, *obuf, *cbuf;
+	static uint8_t lb[ISAL_DEF_LVL3_DEFAULT];
+	const uint64_t total = (1ull << 32) + 5 + 77777;
+	size_t ccap = kind ? (size_t)7 << 29 : 64 << 20; /* compressed size: mixed data needs room (lazily touched) */
+	if (!src) {
+		src = malloc(PERIOD + PIECE);
+		obuf = malloc(PIECE);
+	}
+	cbuf = malloc(ccap);
+	if (!cbuf) {
+		v_not_exhaustive("big stream: cannot allocate the compressed-stream buffer");
+		return;
+	}
+	if (kind == 0)
+		memset(src, 'z', PERIOD + PIECE);
+	else {
+		fill_mixed(src, PERIOD, 31 + level);
+		memcpy(src + PERIOD, src, PIECE);
+	}
+	char key[200];
+	snprintf(key, sizeof key, "big-stream level=%d data=%s total=2^32+77782", level, kind ? "mixed(period 3 MiB)" : "constant");
 	struct isal_zstream s;
-	memset(chunk, 'z', sizeof chunk);
 	isal_deflate_init(&s);
-	s.level = 1; s.level_buf = lb; s.level_buf_size = sizeof lb; s.gzip_flag = IGZIP_GZIP;
-	uint64_t total = (1ull << 32) + 5, fed = 0;
+	s.level = level; s.level_buf = level ? lb : NULL; s.level_buf_size = level ? lvl_default[level] : 0; s.gzip_flag = IGZIP_GZIP;
+	uint64_t fed = 0, clen = 0;
 	uint32_t crc = 0;
-	uint8_t last8[8] = { 0 };
-	uint64_t outtotal = 0;
 	cpu_set_level(CPU_HOST);
 	while (s.internal_state.state != ZSTATE_END) {
 		if (s.avail_in == 0 && fed < total) {
-			size_t k = total - fed < sizeof chunk ? total - fed : sizeof chunk;
-			s.next_in = chunk; s.avail_in = k;
-			crc = ri_crc32(crc, chunk, k);
+			size_t k = total - fed < PIECE ? total - fed : PIECE;
+			s.next_in = src + fed % PERIOD; s.avail_in = k;
+			crc = ri_crc32(crc, s.next_in, k);
 			fed += k;
 			s.end_of_stream = fed == total;
 		}
-		s.next_out = obuf; s.avail_out = sizeof obuf;
-		int r = isal_deflate(&s);
-		if (r != COMP_OK) {
-			v_violation("isize-wrap", "isal_deflate returned %d after %llu bytes", r, (unsigned long long)fed);
+		if (clen + PIECE > ccap) {
+			v_violation(key, "compressed stream larger than %zu bytes", ccap);
+			free(cbuf);
 			return;
 		}
-		size_t p = sizeof obuf - s.avail_out;
-		outtotal += p;
-		if (p >= 8)
-			memcpy(last8, obuf + p - 8, 8);
-		else if (p) {
-			memmove(last8, last8 + p, 8 - p);
-			memcpy(last8 + 8 - p, obuf, p);
+		s.next_out = cbuf + clen; s.avail_out = PIECE;
+		int r = isal_deflate(&s);
+		if (r != COMP_OK) {
+			v_violation(key, "isal_deflate returned %d after %llu bytes", r, (unsigned long long)fed);
+			free(cbuf);
+			return;
 		}
+		clen += PIECE - s.avail_out;
 	}
-	uint32_t scrc = last8[0] | last8[1] << 8 | last8[2] << 16 | (uint32_t)last8[3] << 24, sisz = last8[4] | last8[5] << 8 | last8[6] << 16 | (uint32_t)last8[7] << 24;
 	v_eval();
-	if (scrc != crc || sisz != 5)
-		v_violation("isize-wrap", "trailer after 2^32+5 bytes: crc %08x (reference %08x) isize %u (expected 5 = length mod 2^32)", scrc, crc, sisz);
-	v_count("isize_wraparound_checked", 1);
+	uint32_t scrc = cbuf[clen - 8] | cbuf[clen - 7] << 8 | cbuf[clen - 6] << 16 | (uint32_t)cbuf[clen - 5] << 24,
+		 sisz = cbuf[clen - 4] | cbuf[clen - 3] << 8 | cbuf[clen - 2] << 16 | (uint32_t)cbuf[clen - 1] << 24;
+	if (scrc != crc || sisz != (uint32_t)total)
+		v_violation(key, "trailer: crc %08x (reference %08x) isize %u (expected %u = length mod 2^32)", scrc, crc, sisz, (uint32_t)total);
+	/* decode with isal_inflate (streaming, gzip verification) */
+	for (int dec = 0; dec < 2; dec++) {
+		uint64_t got = 0, ipos = 0;
+		int bad = 0, fin = 0;
+		struct inflate_state *st = malloc(sizeof *st);
+		z_stream z;
+		memset(&z, 0, sizeof z);
+		if (dec == 0) {
+			isal_inflate_init(st);
+			st->crc_flag = ISAL_GZIP;
+		} else
+			inflateInit2(&z, 31);
+		while (!fin && !bad) {
+			size_t k = clen - ipos < PIECE ? clen - ipos : PIECE;
+			size_t produced, consumed;
+			if (dec == 0) {
+				st->next_in = cbuf + ipos; st->avail_in = k; st->next_out = obuf; st->avail_out = PIECE;
+				int r = isal_inflate(st);
+				consumed = k - st->avail_in; produced = PIECE - st->avail_out;
+				if (r != ISAL_DECOMP_OK) { v_violation(key, "isal_inflate returned %d after %llu output bytes", r, (unsigned long long)got); bad = 1; }
+				fin = st->block_state == ISAL_BLOCK_FINISH;
+			} else {
+				z.next_in = cbuf + ipos; z.avail_in = k; z.next_out = obuf; z.avail_out = PIECE;
+				int r = inflate(&z, Z_NO_FLUSH);
+				consumed = k - z.avail_in; produced = PIECE - z.avail_out;
+				if (r != Z_OK && r != Z_STREAM_END) { v_violation(key, "zlib inflate returned %d (%s) after %llu output bytes", r, z.msg ? z.msg : "", (unsigned long long)got); bad = 1; }
+				fin = r == Z_STREAM_END;
+			}
+			ipos += consumed;
+			/* compare with the input (pieces may straddle the period) */
+			for (size_t i = 0; i < produced && !bad;) {
+				size_t off = (got + i) % PERIOD, n = produced - i < PERIOD - off ? produced - i : PERIOD - off;
+				if (got + i + n > total || memcmp(obuf + i, src + off, n)) {
+					v_violation(key, "%s output differs from the input near offset %llu", dec ? "zlib" : "isal_inflate", (unsigned long long)(got + i));
+					bad = 1;
+				}
+				i += n;
+			}
+			got += produced;
+			if (!consumed && !produced && !fin) { v_violation(key, "%s made no progress at input %llu", dec ? "zlib" : "isal_inflate", (unsigned long long)ipos); bad = 1; }
+		}
+		if (!bad && (got != total || ipos != clen))
+			v_violation(key, "%s: %llu bytes decoded (expected %llu), %llu of %llu stream bytes consumed", dec ? "zlib" : "isal_inflate", (unsigned long long)got, (unsigned long long)total, (unsigned long long)ipos, (unsigned long long)clen);
+		if (dec)
+			inflateEnd(&z);
+		free(st);
+		v_eval();
+	}
+	free(cbuf);
+	v_count("streams_over_4GiB_round_tripped", 1);
+	v_nontrivial(v_mix(0x4619, level * 2 + kind));
 }
 
 int main(int argc, char **argv)
@@ -510,8 +581,17 @@ int main(int argc, char **argv)
 	}
 	if (!v_part || !strcmp(v_part, "boundary"))
 		boundary();
-	if (v_thorough && (!v_part || !strcmp(v_part, "isize")) && v_shard == 0)
-		isize_wrap();
+	if (!v_part || !strcmp(v_part, "isize")) {
+		/* quick: levels 0 and 1 on constant data; thorough: all levels x both data kinds (one configuration per shard) */
+		for (int level = 0; level <= 3; level++)
+			for (int kind = 0; kind < 2; kind++) {
+				if (!v_thorough && (kind || level > 1))
+					continue;
+				if (!v_mine(unit++))
+					continue;
+				big_stream(level, kind);
+			}
+	}
 	if (v_shard == 0) {
 		v_sample("seed{stored(11)} mode=GZIP bitflip@26.3(trailer) driver=split@25: must not complete; reference says incorrect-checksum");
 		v_sample("producer level=2 wrapper=zlib_no_hdr api=deflate-chunked(1-byte input) input=text:8193: stored Adler-32 == reference Adler-32 of the input, stream accepted");
